@@ -292,19 +292,28 @@ def openOn (lo hi : Nat) (resume : Bool) (db : List (String × Fields)) : State 
 def reopen (s : State) (resume : Bool) : State :=
   if s.pending ≠ [] then s else openOn s.lo s.hi resume (updateStats s).db
 
-/-- The record `CompactDatabase` writes for a registered torrent (after the `fix:` commits: the
-started flag is the persisted one, not the momentary status; tier and web-seed lists are the ones
-the torrent was added with plus `AddTracker` additions). -/
-def compactRec (s : State) (t : Torrent) : Fields :=
-  { t.f with started := ((dbGet s.db t.id).map (·.started)).getD false }
+/-- The record `CompactDatabase` writes for a registered torrent (after the `fix:` commits): identity,
+options and counters come from the live torrent; tier list, web-seed list and the started flag are
+copied from the torrent's current record `r`. -/
+def compactRec (t : Torrent) (r : Fields) : Fields :=
+  { t.f with started := r.started, trackers := r.trackers, webseeds := r.webseeds }
 
-/-- `CompactDatabase`: a new database with one record per registered torrent that has metadata. -/
-def compact (s : State) : List (String × Fields) :=
-  (s.reg.filter (·.f.hasInfo)).map fun t => (t.id, compactRec s t)
+/-- `CompactDatabase`: a new database with one record per registered torrent that has metadata.
+`none` = it returns an error (a registered torrent without a readable record). -/
+def compact (s : State) : Option (List (String × Fields)) :=
+  (s.reg.filter (·.f.hasInfo)).mapM fun t => (dbGet s.db t.id).map fun r => (t.id, compactRec t r)
+
+/-- The pre-fix record: started flag from the momentary status, tier and web-seed lists from
+`rawTrackers` / `rawWebseedSources`, which are only set for torrents loaded at startup (`loaded`). -/
+def compactRecUnfixed (loaded : Bool) (t : Torrent) : Fields :=
+  if loaded then t.f else { t.f with trackers := [], webseeds := [] }
 
 /-- `rain compact-database`: compact, close, replace the file, and (later) open a session on it. -/
 def compactSwap (s : State) (resume : Bool) : State :=
-  if s.pending ≠ [] then s else openOn s.lo s.hi resume (compact s)
+  if s.pending ≠ [] then s else
+  match compact s with
+  | some c => openOn s.lo s.hi resume c
+  | none => s
 
 /-- The operations of a history.  `add` is a whole sequential add; `begin … insert` are its steps,
 which may be interleaved with anything else (concurrent callers). -/
